@@ -48,7 +48,10 @@ def sessions():
     for asn4 in (True, False):
         for ap in (0, 3):
             for ibgp in (False, True):
-                out.append({'asn4': asn4, 'addpath': ap, 'ibgp': ibgp, 'name': f'{"asn4" if asn4 else "as2"}/{"ap" if ap else "noap"}/{"ibgp" if ibgp else "ebgp"}'})
+                out.append({'asn4': asn4, 'addpath': ap, 'ibgp': ibgp, 'aigp': False, 'name': f'{"asn4" if asn4 else "as2"}/{"ap" if ap else "noap"}/{"ibgp" if ibgp else "ebgp"}'})
+    # the same with the AIGP session option (capability { aigp enable; }): the attribute is accepted there only
+    for asn4, ap, ibgp in ((True, 0, True), (False, 0, False), (True, 3, False)):
+        out.append({'asn4': asn4, 'addpath': ap, 'ibgp': ibgp, 'aigp': True, 'name': f'{"asn4" if asn4 else "as2"}/{"ap" if ap else "noap"}/{"ibgp" if ibgp else "ebgp"}/aigp'})
     return out
 
 
@@ -56,6 +59,9 @@ def build_session(sk):
     las = 65000
     pas = 65000 if sk['ibgp'] else 65001
     nb = corpus.all_families_neighbor(las=las, pas=pas, asn4=True, addpath=sk['addpath'], adj_rib_in=True)
+    from exabgp.util.enumeration import TriState
+
+    nb.capability.aigp = TriState.TRUE if sk.get('aigp') else TriState.FALSE
     neg = corpus.mirror_session(nb, peer_asn4=sk['asn4'])
     return nb, neg
 
@@ -180,9 +186,22 @@ def run_shard(desc):
             res.violation(key, 'withdrawn set reported differs from what was sent', wit, cls)
             bad = True
         oattr = dict(obs['attrs'])
-        oattr.pop('aigp', None)
         oattr.pop('next_hop', None)
         eattr = dict(exp['attrs'])
+        # AIGP (RFC 7311): reported with its value on a session configured for it, removed everywhere else
+        if bool(neg.aigp) != bool(sk.get('aigp')):
+            res.inconclusive.append(f'session {sk["name"]}: negotiated aigp={neg.aigp}')
+            continue
+        if 'aigp' in oattr:
+            try:
+                oattr['aigp'] = int(str(oattr['aigp']), 0)
+            except ValueError:
+                pass
+        if sk.get('aigp') and intent['attrs'] and 'aigp' in intent['attrs']:
+            eattr['aigp'] = intent['attrs']['aigp']
+            res.count('aigp-compared:configured-session')
+        elif intent['attrs'] and 'aigp' in intent['attrs']:
+            res.count('aigp-compared:plain-session')
         if not (intent['announce'] or intent['withdraw']):
             eattr = oattr  # nothing to attach attributes to
         if intent['withdraw'] and not intent['announce']:
